@@ -47,6 +47,38 @@ let result_s (r : calc_result) =
   | RFloat Panic -> "PANIC struct"
   | RFloat OutOfFuel -> "fuel"
 
+(* float mode: the f64 oracle instantiated with OCaml floats (IEEE binary64, like Rust's f64).
+   + - * / are the hardware operations in both; f64::powf calls the C library's pow, as
+   OCaml's ( ** ) does. str::parse::<f64> is correctly rounded (core::num::dec2flt) and so is
+   float_of_string (glibc strtod); the accepted syntax is the model's [f64_syntax] (what dec2flt
+   accepts, minus inf/nan spellings) -- float_of_string alone would also take hex and '_'. *)
+let fl_ops = {
+  f_add = (fun a b -> a +. b);
+  f_sub = (fun a b -> a -. b);
+  f_mul = (fun a b -> a *. b);
+  f_div = (fun a b -> a /. b);
+  f_pow = (fun a b -> a ** b);
+  f_lit = (fun s -> if f64_syntax s then float_of_string_opt (raw s) else None);
+}
+
+(* the bit pattern; every NaN is printed as nan (payload and sign of a NaN are not observable
+   through Display) *)
+let bits_s (x : float) =
+  if x <> x then "f nan" else Printf.sprintf "f %016Lx" (Int64.bits_of_float x)
+
+let result_f_s r =
+  match r with
+  | FSyntax -> "err \"syntax error\""
+  | FFuel -> "fuel"
+  | FInt (Ok (IVal z)) -> "ok \"" ^ Int64.to_string (i64_of_z z) ^ "\""
+  | FInt (Ok (IDiag d)) -> "err \"" ^ diag_s d ^ "\""
+  | FInt Panic -> "PANIC struct"
+  | FInt OutOfFuel -> "fuel"
+  | FFloat (Ok (Some x)) -> bits_s x
+  | FFloat (Ok None) -> "PANIC unwrap"
+  | FFloat Panic -> "PANIC struct"
+  | FFloat OutOfFuel -> "fuel"
+
 let () =
   iter_lines (fun l ->
     match split_tab l with
@@ -67,6 +99,7 @@ let () =
          | GFuel -> print_endline "fuel"
          | GBad -> print_endline "?bad-tree")
     | ["calc"; f] -> print_endline (result_s (run_calculator (str_of_field f)))
+    | ["calcf"; f] -> print_endline (result_f_s (run_calculator_f fl_ops (str_of_field f)))
     | ["try"; f] ->
         (match try_run_calculator (str_of_field f) with
          | None -> print_endline "none"
